@@ -190,6 +190,18 @@ theorem C09_overlapping_lookups (cfg : Cfg) (w : World) (g : Ghost) (n : Nat) (t
     check cfg g (.slowEnd n tid) (slowEnd w n tid).2 = true ∧
     Inv cfg.backend (slowEnd w n tid).1 (gstep cfg g (.slowEnd n tid)) := slowEnd_ok cfg w g n tid hI
 
+/-- **Removal is unconditional** (also part of `C09_main`): when a tunnel ends, `RemoveWaitingTunnel`
+removes the record whatever state the caller's context is in — at shutdown `runBridgeLifecycle`
+hands it the session manager's already cancelled context — so from any reachable state a lookup
+from any node after such a removal does not resolve the id. -/
+theorem C09_remove_with_dead_context (cfg : Cfg) (w : World) (g : Ghost) (n m : Nat) (tid : String)
+    (hI : Inv cfg.backend w g) (hn : wfNode cfg.backend n = true) (hm : wfNode cfg.backend m = true) :
+    holdsFrom cfg g [.remDead n tid, .look m tid] (runFrom cfg w [.remDead n tid, .look m tid]) = true :=
+  holdsFrom_run cfg _ w g hI (by
+    intro e he
+    simp only [List.mem_cons, List.mem_nil_iff, or_false] at he
+    rcases he with rfl | rfl <;> simpa [wfEv])
+
 /-! ## Non-vacuity and excluded points -/
 
 def rA : Rec := ⟨"tunnel-隧道", "m-1", "s3cr3t", "node-0", 12345678, -7, "10.0.0.8", 8080, 0, 0⟩
@@ -259,6 +271,13 @@ example : run ⟨.redis, [0, 0, 0]⟩
 /-- The predicate rejects lookup #2 sharing the answer of the lookup that is still in flight. -/
 example : holds ⟨.redis, [0, 0, 0]⟩ [.reg 0 rT1, .slowBegin 2 "T1", .rem 0 "T1", .look 2 "T1"]
     [.ok, .pending, .ok, .found { rT1 with expiresAt := 30000 }] = false := by decide +kernel
+
+/-- A removal under a dead context really removes: the lookup from another node misses; the predicate
+rejects an implementation that keeps resolving the id. -/
+example : run ⟨.redis, [0, 0, 0]⟩ [.reg 0 rT1, .look 1 "T1", .remDead 0 "T1", .look 2 "T1"] =
+    [.ok, .found { rT1 with createdAt := wall0, expiresAt := wall0 + 30000 }, .ok, .notFound] := by decide +kernel
+example : holds ⟨.redis, [0, 0, 0]⟩ [.reg 0 rT1, .remDead 0 "T1", .look 2 "T1"]
+    [.ok, .ok, .found { rT1 with expiresAt := 30000 }] = false := by decide +kernel
 
 /-- Excluded point 1 (why `wfNode`): a tiered store without shared cache keeps the record in the
 registering node's memory, another node does not find it. -/
